@@ -121,6 +121,17 @@ def run_rest(scn, script, running, wall0, collect=None):
     return out
 
 
+def time_prop_chart():
+    """a property statechart that never becomes final and records what its clock shows when the monitored interpreter steps"""
+    from sismic.model import BasicState, CompoundState, Statechart, Transition
+    sc = Statechart('what time is it', preamble='seen = -1\nn = 0')
+    sc.add_state(CompoundState('r', initial='w'), None)
+    sc.add_state(BasicState('w'), 'r')
+    sc.add_transition(Transition('w', None, event='step started', action='seen = time\nn = n + 1'))
+    sc.add_transition(Transition('w', None, event='event consumed', guard='time >= 0', action='n = n + 1'))
+    return sc
+
+
 def pair_state(it):
     ev = lambda e: (type(e).__name__, e.name, tuple(sorted((k, repr(v)) for k, v in e.data.items())))
     return (tuple(it.configuration), tuple(sorted((k, repr(v)) for k, v in it.context.items() if not callable(v))),
@@ -137,6 +148,9 @@ def pair_apply(pair, op):
     elif op[0] == 'clock':
         for it in pair:
             it.clock.time += op[1]
+        out = None
+    elif op[0] == 'clock0':
+        pair[0].clock.time += op[1]       # (the second follows the first through its synchronised clock)
         out = None
     else:
         try:
@@ -160,7 +174,13 @@ def pair_check(rng, n, v, stats):
     for k in range(n):
         blobs = [pickle.dumps(genchart.valid_chart(rng, prof)) for _ in range(2)]
 
+        monitored = (k % 3 == 2)     # every third pair: an interpreter and the property statechart bound to it
+
         def mk():
+            if monitored:
+                a = Interpreter(pickle.loads(blobs[0]))
+                b = a.bind_property_statechart(time_prop_chart())._interpreter
+                return (a, b)
             a, b = (Interpreter(pickle.loads(bl)) for bl in blobs)
             a.bind(b)
             b.bind(a)
@@ -168,8 +188,12 @@ def pair_check(rng, n, v, stats):
         script = []
         for _ in range(rng.randint(8, 18)):
             r = rng.random()
-            script.append(('q', rng.randrange(2), rng.choice(['e0', 'e1', 'e2'])) if r < 0.35 else
-                          (('clock', rng.choice([1, 2, 5])) if r < 0.45 else ('x', rng.randrange(2))))
+            who = 0 if monitored else rng.randrange(2)
+            script.append(('q', who, rng.choice(['e0', 'e1', 'e2'])) if r < 0.35 else
+                          (('clock0', rng.choice([1, 2, 5])) if monitored and r < 0.5 else
+                           (('clock', rng.choice([1, 2, 5])) if r < 0.45 else ('x', who))))
+        if monitored:
+            stats['monitored_pairs'] = stats.get('monitored_pairs', 0) + 1
         ref = [pair_apply(p0, op) for p0 in [mk()] for op in script]
         orig = mk()
         snaps, got = [], []
@@ -240,6 +264,29 @@ def main(tier, seed):
                 for t in rng.sample(list(chart._transitions), min(3, len(chart._transitions))):
                     t.action = ((t.action + '\n') if t.action else '') + 'emit(x)'
                 stats['charts_with_a_preamble_function'] = stats.get('charts_with_a_preamble_function', 0) + 1
+            if rng.random() < 0.3:
+                # code that uses setdefault(), the third thing the evaluator exposes to executed code
+                for t in rng.sample(list(chart._transitions), min(2, len(chart._transitions))):
+                    t.action = ((t.action + '\n') if t.action else '') + "setdefault('sd', 0)\nsd = sd + 1"
+                stats['charts_using_setdefault'] = stats.get('charts_using_setdefault', 0) + 1
+            if rng.random() < 0.35:
+                # a statechart that was EDITED before it is run (as a tool building charts does): a state renamed (the new name
+                # keeps its place in the order of names), a state added and removed again
+                from sismic.model import BasicState
+                texts = ' '.join(filter(None, [chart.preamble] + [getattr(st, a, None) for st in chart._states.values() for a in ('on_entry', 'on_exit')] +
+                                        [x for st in chart._states.values() for x in list(st.preconditions) + list(st.postconditions) + list(st.invariants)] +
+                                        [x for t in chart._transitions for x in [t.guard, t.action] + list(t.preconditions) + list(t.postconditions) + list(t.invariants)]))
+                cands = [n for n in chart._states if ("'%s'" % n) not in texts and n != chart.root and (n + 'q') not in chart._states]
+                try:
+                    if cands:
+                        chart.rename_state(rng.choice(cands), rng.choice(cands) + 'q') if False else None
+                        n0 = rng.choice(cands)
+                        chart.rename_state(n0, n0 + 'q')
+                    chart.add_state(BasicState('zz_tmp'), chart.root)
+                    chart.remove_state('zz_tmp')
+                    stats['charts_edited_before_the_run'] = stats.get('charts_edited_before_the_run', 0) + 1
+                except Exception:  # noqa
+                    pass
             running = rng.random() < 0.25
             evs = sorted({t.event for t in chart._transitions if t.event})
             script = [metam.random_op(rng, fail_bits=False, names=evs) for _ in range(rng.randint(6, 16))]
